@@ -201,6 +201,26 @@ let handle (r : reader) : unit =
       let l = next_list r (fun r -> let d = next_n r in let l = next_ranges r in (d, l)) in
       out_s "OK";
       out_moc (kway o q w l)
+  | "NCELLS" ->
+      let q = next_qty r in
+      let w = next_n r in
+      let d = next_n r in
+      let l = next_ranges r in
+      let cells = next_ranges r in
+      out_s "OK";
+      out_bool (canonb l && normal_cellsb q w d l cells)
+  | "NUM" ->
+      (* NUM q w n (depth idx)* -> per cell: nuniq zuniq *)
+      let q = next_qty r in
+      let w = next_n r in
+      let cells = next_ranges r in
+      out_s "OK";
+      List.iter (fun (d, i) -> out_n (uniq_hpx d i); out_n (to_zuniq q w d i)) cells
+  | "SCALE" ->
+      let k = next_n r in
+      let l = next_ranges r in
+      out_s "OK";
+      out_ranges (scale k l)
   | "EXPR" ->
       let q = next_qty r in
       let w = next_n r in
